@@ -16,7 +16,8 @@
 From Coq Require Import List Arith NArith ZArith Bool.
 From Coq Require Import String.
 Require Import RV.Model.Base RV.Model.RespWrite RV.Model.Resp.
-Require Import RV.Proofs.RespSafetyBase RV.Proofs.RespSafety RV.Proofs.RespSafetyMain.
+Require Import RV.Model.RespStream.
+Require Import RV.Proofs.RespSafetyBase RV.Proofs.RespSafety RV.Proofs.RespSafetyMain RV.Proofs.RespStreamSafety.
 Import ListNotations.
 Open Scope N_scope.
 
@@ -58,6 +59,17 @@ Theorem C13_all_readers : forall (B fuel : nat),
   rn_ok B (read_next fuel) /\ ral_ok B (read_a_loop fuel) /\ rel_ok B (read_e_loop fuel).
 Proof. exact safety_all. Qed.
 Print Assumptions C13_all_readers.
+
+(** the streaming reader (streamTo) does not panic either: every byte string, every writer failure point *)
+Theorem C13_stream_no_panic : forall (B : nat) (budget : option N) (input : bytes),
+  blen input < input_bound -> snd (fst (fst (fst (stream B budget input)))) <> SPanic.
+Proof.
+  intros B budget input Hb. unfold stream.
+  destruct (stream_no_panic B (fuel_for (List.length input))) as [H _].
+  specialize (H input (w_init budget) Hb). unfold no_spanic in H.
+  destruct (runw B (stream_to (fuel_for (List.length input))) input (w_init budget)) as [[o rest] w]. exact H.
+Qed.
+Print Assumptions C13_stream_no_panic.
 
 (** non-vacuity: the inputs that crashed or exhausted memory before the repair are now errors, and
     what they make the decoder allocate is small *)
